@@ -72,6 +72,7 @@ def tasks(tier, seed):
                     "label": f"{kind}/eq/other_kind"})
     for op in ("set", "update", "iadd", "add"):
         out.append({"fn": "photon_ieee", "kwargs": {"op": op}, "label": f"photon/ieee/{op}", "solver": "cvc5", "cross_check": False, "caps": {"solver_timeout_ms": 60000}})
+        out.append({"fn": "photon_ieee", "kwargs": {"op": op, "shape": [3, 1]}, "label": f"photon/ieee/{op}/3x1", "solver": "cvc5", "cross_check": False, "caps": {"solver_timeout_ms": 60000}})
     for pre in ("empty", "full3d", "full2d"):
         for op in ("set3d", "iadd"):
             for arg in ("ok", "int_dtype", "wrong_yx", "wrong_dims", "no_coords", "array2d"):
@@ -263,17 +264,17 @@ def photon3d(pre, op, arg):
             vx.prove("C13/photon3d/valid_operation_accepted", raised is None, case=lab, error=repr(raised)[:100])
 
 
-def photon_ieee(op):
+def photon_ieee(op, shape=(1, 3)):
     """IEEE-754 values (NaN, +-inf, -0.0 included): after an assignment no stored photon count is negative."""
     import pyxel.data_structure as ds
 
-    shape = (1, 3)
+    shape = tuple(shape)
     from pyxel.detectors import CCDGeometry
 
     with Patch() as p:
         p.numpy(*DATA_MODULES)
         c = ds.Photon(CCDGeometry(row=shape[0], col=shape[1]))
-        vals = [vx.fp(f"v{i}") for i in range(3)]
+        vals = [vx.fp(f"v{i}") for i in range(shape[0] * shape[1])]
         arg = symnp.SymArray.from_elems(vals, shape, np.float64)
         raised = None
         try:
@@ -418,8 +419,9 @@ def replay(oid, kwargs, model, data):
     if fn == "photon_ieee":
         from pyxel.detectors import CCDGeometry
 
-        c = _types("photon")(CCDGeometry(row=1, col=3))
-        arr = np.array([[float(model.get(f"v{i}", 0.0)) for i in range(3)]])
+        shp = tuple(kwargs.get("shape", (1, 3)))
+        c = _types("photon")(CCDGeometry(row=shp[0], col=shp[1]))
+        arr = np.array([float(model.get(f"v{i}", 0.0)) for i in range(3)]).reshape(shp)
         op = kwargs["op"]
         try:
             if op == "set":
